@@ -46,7 +46,7 @@ def dump(results, name):
 
 def run(out, tier, seed):
     main = []
-    for cfg in (["GleamSyn_ops.cfg", "GleamSyn_b2.cfg"] if tier == "quick" else ["GleamSyn_ops.cfg", "GleamSyn_b3.cfg"]):
+    for cfg in (["GleamSyn_ops.cfg", "GleamSyn_post.cfg", "GleamSyn_b2.cfg"] if tier == "quick" else ["GleamSyn_ops.cfg", "GleamSyn_post.cfg", "GleamSyn_b3.cfg"]):
         r = vlib.tlc("GleamSyn", cfg, workers=8, timeout=3000, heap="8g", coverage=(cfg == "GleamSyn_b2.cfg"))
         vlib.require_ok(r, cfg)
         out.add_tlc(r, "MC Balanced + GEN (BFS) " + cfg)
